@@ -309,6 +309,10 @@ func thorough(c *Ctx, repo, verif string, extra map[string]interface{}) int {
 		}
 	}
 	extra["selftest"] = map[string]interface{}{"mutants": len(mine), "ok": nOK, "skipped": nSkip, "results": results}
+	// (4) independently seeded changes (written by sub-agents that saw only the property text)
+	seedRes, seedFail := runSeeded(c, repo, verif, base)
+	failures += seedFail
+	extra["seeded_changes"] = seedRes
 	fmt.Printf("%s thorough: %d build configurations, %d self-test mutants (%d ok, %d skipped), %d failures\n", c.Prop, len(cfgs), len(mine), nOK, nSkip, failures)
 	return failures
 }
@@ -339,4 +343,90 @@ func doReplay(c *Ctx, file string) int {
 	}
 	fmt.Println("obligation no longer present:", r.Rule, r.Construct)
 	return 0
+}
+
+type seedResult struct {
+	ID      string   `json:"id"`
+	Outcome string   `json:"outcome"`
+	Fired   []string `json:"fired,omitempty"`
+}
+
+// runSeeded applies each stored patch of this property to copies of the affected files in a
+// temporary directory (outside /repo and /verif, removed afterwards), analyses /repo with those
+// copies overlaid in memory, and expects at least one new violation.
+func runSeeded(c *Ctx, repo, verif string, base map[string]*Obligation) ([]seedResult, int) {
+	dirs, _ := filepath.Glob(filepath.Join(verif, "seeded", "*", "meta.json"))
+	sort.Strings(dirs)
+	var out []seedResult
+	failures := 0
+	for _, mf := range dirs {
+		b, err := os.ReadFile(mf)
+		if err != nil {
+			continue
+		}
+		var meta struct {
+			ID       string `json:"id"`
+			Property string `json:"property"`
+		}
+		if json.Unmarshal(b, &meta) != nil || meta.Property != c.Prop {
+			continue
+		}
+		patch := filepath.Join(filepath.Dir(mf), "patch.diff")
+		res := seedResult{ID: meta.ID}
+		tmp, err := os.MkdirTemp("", "helios-seed-")
+		if err != nil {
+			res.Outcome = "error: " + err.Error()
+			out = append(out, res)
+			failures++
+			continue
+		}
+		func() {
+			defer os.RemoveAll(tmp)
+			pb, _ := os.ReadFile(patch)
+			var files []string
+			for _, line := range strings.Split(string(pb), "\n") {
+				if strings.HasPrefix(line, "+++ b/") {
+					files = append(files, strings.TrimPrefix(line, "+++ b/"))
+				}
+			}
+			for _, f := range files {
+				src, err := os.ReadFile(filepath.Join(repo, f))
+				if err != nil {
+					res.Outcome = "skipped: " + f + " no longer exists"
+					return
+				}
+				_ = os.MkdirAll(filepath.Dir(filepath.Join(tmp, f)), 0o755)
+				_ = os.WriteFile(filepath.Join(tmp, f), src, 0o644)
+			}
+			cmd := exec.Command("patch", "-p1", "-s", "-N", "-d", tmp, "-i", patch)
+			if o, err := cmd.CombinedOutput(); err != nil {
+				res.Outcome = "skipped: patch no longer applies to the current sources: " + firstN(string(o), 120)
+				return
+			}
+			r, err := runSub(repo, c.Prop, []string{"-overlay-dir", tmp}, nil)
+			switch {
+			case err != nil:
+				res.Outcome = "error: " + err.Error()
+				failures++
+			case r.LoadError != "":
+				res.Outcome = "skipped: does not compile against the current sources: " + firstN(r.LoadError, 120)
+			default:
+				for k := range nonOK(r.Obs) {
+					if _, ok := base[k]; !ok {
+						res.Fired = append(res.Fired, k)
+					}
+				}
+				sort.Strings(res.Fired)
+				if len(res.Fired) > 0 {
+					res.Outcome = "ok: detected"
+				} else {
+					res.Outcome = "FAILED: not detected"
+					failures++
+					fmt.Printf("  seeded change %s: NOT detected\n", meta.ID)
+				}
+			}
+		}()
+		out = append(out, res)
+	}
+	return out, failures
 }
